@@ -57,6 +57,17 @@ CLAIMS = {
                 'height <= 2e6. Ed25519 verification is an uninterpreted predicate; header() abstracted (C07).',
         'technique': 'bounded symbolic execution of rustc MIR + z3 bit-vector obligations, compositional (vote kernels + threshold)',
     },
+    'C19': {
+        'text': 'Symbolic execution of the MIR of handle_faucet_tx, its call site in create_next_state and '
+                'validate_tx_scripts: accepted on mainnet => the transaction hash is the one grandfathered constant; accepted '
+                '=> its dedup marker was absent; accepted and not grandfathered => the marker is present afterwards; marker '
+                'present => rejected as duplicate; the same faucet twice in a batch is rejected; a coin locked to the '
+                'all-zero address (the marker) can never pass script validation, so a marker is never removed -- by '
+                'induction a faucet is accepted at most once over the life of the chain.',
+        'design_ref': 'DESIGN.md §8 C19',
+        'note': COMMON_NOTE + ' A-HASH incl. no preimage of the all-zero hash; arbitrary coin tree; all networks.',
+        'technique': 'bounded symbolic execution of rustc MIR + z3 obligations (one step + inductive marker invariant)',
+    },
     'C20': {
         'text': 'Step lemmas on the MIR of CoinMapping::{insert_coin,remove_coin,coin_count,insert_coin_count} from an '
                 'arbitrary coin tree satisfying the count invariant: for a universally quantified covenant hash a, the '
